@@ -25,6 +25,7 @@ const (
 	vPanic = "PANIC"
 	vFatal = "FATAL"
 	vHang  = "HANG"
+	vWrong = "WRONG-BYTES" // passthrough-merge only: the fd returned for a pristine file holds other bytes
 )
 
 type childSpec struct {
@@ -226,6 +227,10 @@ func (c *childCtx) stage(name string, fn func() error) {
 			}
 		}()
 		if err := fn(); err != nil {
+			if wb, ok := err.(wrongBytes); ok {
+				r.V, r.Key, r.Msg = vWrong, "C04/passthrough/wrong-bytes", trunc(wb.msg, 400)
+				return
+			}
 			r.V, r.Err = vErr, errClass(err)
 		} else {
 			r.V = vOK
@@ -393,6 +398,8 @@ func childMain() {
 			runHTTP(c, in)
 		case in.Build != nil:
 			runBuild(c, in)
+		case in.PT != nil:
+			runPassthrough(c, in)
 		default:
 			runBlob(c, in)
 		}
@@ -401,7 +408,7 @@ func childMain() {
 		m := childMsg{T: "R", I: idx, Res: c.res, Deep: c.deep, Ops: c.ops, Hash: inputHash(in), Leak: c.leak}
 		bad := spec.Verbose
 		for _, r := range c.res {
-			if r.V == vPanic {
+			if r.V == vPanic || r.V == vWrong {
 				bad = true
 			}
 		}
